@@ -278,19 +278,20 @@ def matrix_twice(self, mode2, %s):
 # ---- `set X begin stage row 9 10 end` on an unknown or non-matrix light, whatever was staged for an earlier light: a message,
 #      no exception (the stages that follow must not fall outside a matrix left over from another light) and nothing sent
 for target in ('unknown', 'plain'):
+  for rng, rtxt in (((9, 10, None, None), 'row 9 10'), ((None, None, 3, 4), 'column 3 4'), ((1, 1, 2, 2), 'row 1 column 2'), ((0, 200, 0, 200), 'row 0 200 column 0 200')):
     for prev in (None, (2, 3)):
         c = contract('bardolph/vm/machine.py', 'stage_on_absent_light', serves=['C15', 'C12', 'C01'],
-                     name='lemma:set X begin stage row 9 10 end [%s target, staged before: %s]' % (target, prev and '%dx%d' % prev), src='''
+                     name='lemma:set X begin stage %s end [%s target, staged before: %s]' % (rtxt, target, prev and '%dx%d' % prev), src='''
 def stage_on_absent_light(self):
     reg = self._reg
     before = reg.matrix
     self._matrix()
     fresh = reg.matrix is not before or before is None
-    reg.first_row, reg.last_row, reg.first_column, reg.last_column = 9, 10, None, None
+    reg.first_row, reg.last_row, reg.first_column, reg.last_column = %r
     self._color_matrix()
     self._color_matrix_light()
     return fresh
-''')
+''' % (rng,))
         def _setup(b, case, target=target, prev=prev):
             impl = lib.device(b, 'dev')
             lights = {'P': lib.lifx_light(b, 'plain', impl, 'P')} if target == 'plain' else {}
@@ -308,3 +309,51 @@ def stage_on_absent_light(self):
         c.setup(_setup)
         c.ensures('not-the-matrix-of-an-earlier-light', 'result is True')
         c.ensures('nothing-sent', "len(ghost('Dev')) == 0")
+
+
+# ---- the adapter of a real matrix light: ONE SetTileState64 message for the whole matrix, the tile described as it is
+#      (the colours are laid out row by row over `width`: swapped dimensions shear the picture on any non-square light)
+LL = 'bardolph/controller/lifx_lan_light.py'
+c = contract(LL, 'MatrixLight.set_matrix', serves=['C15', 'C07', 'C18'], unwrap=1, name='MatrixLight.set_matrix[payload]')
+def _setup(b, case):
+    from pyvc.values import Opaque
+    sent = b.ghost('sent', PyList())
+    impl = Opaque('device', {'fire_and_forget': lambda I_, o, a, k: sent.items.append((a[0], a[1], dict(k)))})
+    impl.native = {'kind': 'generic'}
+    h, w = b.sym('int', 'height'), b.sym('int', 'width')
+    b.between(h, 1, 16)
+    b.between(w, 1, 16)
+    light = lib.lifx_light(b, 'matrix', impl, 'M', _height=h, _width=w)
+    colors = PyList([PyList([1, 2, 3, 4])])
+    matrix = Opaque('matrix', {'get_colors': lambda I_, o, a, k: colors})
+    matrix.native = {'kind': 'data', 'returns': {'get_colors': colors}}
+    d = b.sym('int', 'duration')
+    b.between(d, 0, 4294967295)
+    return {'self': light, 'matrix': matrix, 'duration': d, '_colors': colors}
+c.setup(_setup)
+c.ensures('one-message-for-the-whole-matrix', "len(ghost('sent')) == 1 and ghost('sent')[0][0] is SetTileState64")
+c.ensures('the-cells-as-given', "ghost('sent')[0][1]['colors'] is _colors and ghost('sent')[0][1]['duration'] == duration")
+c.ensures('the-tile-as-it-is', "ghost('sent')[0][1]['width'] == self._width and ghost('sent')[0][1]['height'] == self._height "
+          "and ghost('sent')[0][1]['x'] == 0 and ghost('sent')[0][1]['y'] == 0 and ghost('sent')[0][1]['tile_index'] == 0 and ghost('sent')[0][1]['length'] == 1")
+
+
+# ---- ... and reading it back (the capture of C18): the whole tile is asked for, the answer is laid out over the light's own
+#      height and width, row by row
+c = contract(LL, 'MatrixLight.get_matrix', serves=['C18', 'C15'], unwrap=1, name='MatrixLight.get_matrix[2x3 light]')
+def _setup(b, case):
+    from pyvc.values import Opaque
+    asked = b.ghost('asked', PyList())
+    cells = [PyList([b.sym('int', 'c%d_%d' % (i, j)) for j in range(4)]) for i in range(6)]
+    def req(I_, o, a, k):
+        asked.items.append((a[0], a[1], a[2]))
+        return Opaque('answer', attrs={'colors': PyList(list(cells))})
+    impl = Opaque('device', {'req_with_resp': req})
+    impl.native = {'kind': 'generic'}
+    light = lib.lifx_light(b, 'matrix', impl, 'M', _height=2, _width=3)
+    return {'self': light, '_cells': PyList(list(cells))}
+c.setup(_setup)
+c.bounded('a 2 x 3 light')
+c.ensures('one-request-for-the-whole-tile', "len(ghost('asked')) == 1 and ghost('asked')[0][0] is GetTileState64 and ghost('asked')[0][1] is StateTileState64 "
+          "and ghost('asked')[0][2]['width'] == 3 and ghost('asked')[0][2]['height'] == 2 and ghost('asked')[0][2]['x'] == 0 and ghost('asked')[0][2]['y'] == 0 "
+          "and ghost('asked')[0][2]['tile_index'] == 0 and ghost('asked')[0][2]['length'] == 1")
+c.ensures('cells-row-by-row', "result.height == 2 and result.width == 3 and all(result.matrix[r][col] == _cells[r * 3 + col] for r in range(2) for col in range(3))")
